@@ -36,6 +36,8 @@ for d in sorted(os.listdir(root)):
             status = 'detected' if r.returncode == 1 else ('MISSED' if r.returncode == 0 else 'inconclusive(exit %d)' % r.returncode)
             if r.returncode == 1 and meta.get('tier', a.tier) != a.tier:
                 status = 'detected (%s tier)' % meta['tier']
+            if meta.get('expect_silent'):
+                status = {0: 'silent, as it should be (the change preserves the property)', 1: 'ALARM ON A CHANGE SAID TO PRESERVE THE PROPERTY'}.get(r.returncode, status)
             if meta.get('out_of_domain') and r.returncode == 0:
                 status = 'silent, as it should be (outside the quantifier)'
             if meta.get('neutralised_by_fix') and r.returncode == 0:
